@@ -11,7 +11,6 @@ expr_to_c_and_types(expr_simp(e)) must be non-empty, every returned access must 
 consistent with itself, and one of them must have the type of c (for address-valued accesses: or the type of an
 enclosing aggregate/array starting at the same address, which the expression cannot distinguish).
 """
-import os
 import random
 import shutil
 import tempfile
@@ -261,10 +260,10 @@ def judge_access(lay, handler, rootnode, text, stats=None):
         es = expr_simp(e)
         back = handler.expr_to_c_and_types(es)
     except Exception as ex:
-        lead = "+offset0-through-array" if (v.rel == 0 and v.arr and type(ex) is RuntimeError) else ""
+        lead = "+leading-array-element" if (v.leading_array_element() and type(ex) is RuntimeError) else ""
         return ("expr_to_c:exception:%s@%s" % (type(ex).__name__, where(ex)),
                 "%s -> %s -> expr_to_c raised %r" % (text, e, ex), lead)
-    lead = "+offset0-through-array" if (v.rel == 0 and v.arr) else ""
+    lead = "+leading-array-element" if v.leading_array_element() else ""
     if not back:
         return ("expr_to_c:empty", "%s -> %s -> no access" % (text, es), lead)
     found = False
@@ -496,7 +495,13 @@ class C35(Check):
                    "aggregate values are represented by their address (ExprCToExpr docstring), so an access denoting an "
                    "aggregate and the address of that aggregate are the same access",
                    "an address-valued access that coincides with the start of an enclosing aggregate may come back as that "
-                   "aggregate (the expression cannot tell them apart)"]
+                   "aggregate (the expression cannot tell them apart)",
+                   "a pointer to struct/union is taken to point to one object: it is only indexed with 0 (ExprToAccessC "
+                   "refuses offsets beyond the pointed object by design)",
+                   "returned accesses that go through miasm's internal member names (anonymous members, padding), a "
+                   "function designator or a dereferenced void pointer are not judged",
+                   "the native expression of an access through a pointer to array is not compared with C semantics (the "
+                   "tree's own test pins `*p` = @64[p]); its round trip is"]
     level_text = ("randomized differential testing of both layout managers against the host compiler, and of the "
                   "C-access/expression round trip against an independent evaluator of C accesses")
     technique = "property-based differential testing (random declaration generator, gcc layout oracle)"
@@ -560,6 +565,80 @@ class C35(Check):
                 return Failure(b, d, case)
         b, d, extra = fails[0]
         return Failure(b, d, case)
+
+    def shrink(self, failure, tier):
+        """greedy: drop top-level items, drop members, flatten member types to int; keep the bucket"""
+        import copy
+        budget = [40 if tier == "quick" else 150]
+        bucket = failure.bucket
+        best = [failure]
+
+        def aggs(T, out):
+            if T[0] == "agg":
+                out.append(T)
+                for _, ft in T[3]:
+                    aggs(ft, out)
+            elif T[0] in ("ptr", "arr"):
+                aggs(T[1], out)
+
+        def candidates(unit):
+            items = unit["items"]
+            for i in range(len(items) - 1, -1, -1):
+                if len(items) > 1:
+                    u = copy.deepcopy(unit)
+                    del u["items"][i]
+                    yield u
+            n_aggs = []
+            for it in items:
+                aggs(it[1] if it[0] == "def" else it[2] if it[0] == "typedef" else ["void"], n_aggs)
+            for ai in range(len(n_aggs)):
+                for fi in range(len(n_aggs[ai][3]) - 1, -1, -1):
+                    for mode in ("drop", "int"):
+                        u = copy.deepcopy(unit)
+                        lst = []
+                        for it in u["items"]:
+                            aggs(it[1] if it[0] == "def" else it[2] if it[0] == "typedef" else ["void"], lst)
+                        fields = lst[ai][3]
+                        if mode == "drop":
+                            if len(fields) <= 1:
+                                continue
+                            del fields[fi]
+                        else:
+                            if fields[fi][1] == ["base", "int"] or fields[fi][0] is None:
+                                continue
+                            fields[fi][1] = ["base", "int"]
+                        yield u
+
+        def try_case(case):
+            if budget[0] <= 0:
+                return None
+            budget[0] -= 1
+            try:
+                fails = self._judge_case(case)
+            except Exception:
+                return None     # candidate is not a valid unit (dangling tag, gcc error): skip
+            for b, d, extra in fails:
+                if b == bucket:
+                    c = dict(case)
+                    c.update(extra)
+                    return Failure(b, d, c)
+            return None
+
+        progress = True
+        while progress and budget[0] > 0:
+            progress = False
+            cur = best[0].case
+            for u in candidates(cur["unit"]):
+                case = dict(cur)
+                case["unit"] = u
+                r = try_case(case)
+                if r is not None:
+                    best[0] = r
+                    progress = True
+                    break
+                if budget[0] <= 0:
+                    break
+        return best[0]
 
 
 CHECK = C35()
